@@ -29,6 +29,7 @@ def main():
         tier = sys.argv[sys.argv.index("--tier") + 1]
         args = [a for a in args if a != tier]
     patch, demo, prop, *checks = args
+    patch, demo = os.path.abspath(patch), os.path.abspath(demo)
     checks = checks or [prop]
     wt = f"/tmp/seed_wt_{os.getpid()}"
     out = {"patch": patch, "demo": demo, "property": prop, "tier": tier}
@@ -66,8 +67,9 @@ def save(out, sid, notes_path=None):
     import shutil
     d = f"/verif/seeded/{sid}"
     os.makedirs(d, exist_ok=True)
-    shutil.copy(out["patch"], f"{d}/patch.diff")
-    shutil.copy(out["demo"], f"{d}/demo.py")
+    for src, dst in ((out["patch"], f"{d}/patch.diff"), (out["demo"], f"{d}/demo.py")):
+        if not (os.path.exists(dst) and os.path.samefile(src, dst)):
+            shutil.copy(src, dst)
     needs = open(notes_path).read() if notes_path and os.path.exists(notes_path) else ""
     meta = {"id": sid, "breaks_property": out["property"], "needs_to_manifest": needs,
             "confirmed": {"patch_applies_to_repo_head": out.get("patch_applies"), "existing_suite_with_patch": out.get("suite"),
